@@ -18,7 +18,7 @@ CHECKS = {
    note=DYN),
  "C02": dict(engine=E1, cat="exploration", ref="§4 C02",
    technique="property-based testing: generated quantifier chains x response kinds x match counts, differential against segment arithmetic of a reference model",
-   text="Generated quantifier chains (1-5 segments, once/n_times(0..4)/at_least/then, all response kinds, some/each/next/stub entry forms, ordered and unordered) are built through the real type-state builder and matched 0..end+3 times; the tag of every response is compared with the model's segment arithmetic, single-use values must panic on the second request.",
+   text="Generated quantifier chains (1-5 segments, once/n_times(0..4)/at_least/then, all response kinds, some/each/next/stub entry forms, ordered and unordered) are built through the real type-state builder and matched 0..end+3 times; the tag of every response is compared with the model's segment arithmetic, single-use values must panic on the second request. Additionally every schedule of 2-3 threads walking one response chain is enumerated (engine E3): the multiset of responses must be chain positions 1..N.",
    note=DYN + "; return values beyond the end of an all-exact chain are not compared (undefined by the property)"),
  "C03": dict(engine=E1, cat="exploration", ref="§4 C03",
    technique="property-based testing with steered histories (counts at bound-1/bound/bound+1) plus an exhaustively enumerated boundary grid; oracle = reference model verdict and set of named expectations",
@@ -40,7 +40,7 @@ CHECKS = {
  "C08": dict(engine="E1 + real threads (harness/rt)", cat="fault_enumeration", ref="§4 C08",
    technique="fault-injecting property-based testing: generated histories with every reachable mock-induced error kind at any position, on clones, on other threads (caught or propagated to join), concurrent bursts; invariant over the history + reference model for the negative controls",
    text="Every error kind reachable through the public API (no mock implementation, no matcher function, no matching patterns, no output, three call-order errors, value returned twice, explicit panic, cannot unmock, no default impl) is injected at generated positions of generated histories, through the original or clones, on the creator thread or spawned threads with the panic swallowed or propagated; then verification (drop / verify() / report()) must fail and its text must contain every captured error text (multiset). Panicking answer functions and matchers are negative controls: the verdict must then equal the model's count-based verdict. All interleavings of 2-3 threads whose calls all err (racing for the shared error list, at lock granularity) are enumerated with the controlled scheduler; the thorough tier adds a libFuzzer campaign over the same scenario space.",
-   note=DYN + "; std build only (the documented no_std behaviour is not run)"),
+   note=DYN + "; sub-check text-arguments: every error kind about calls whose arguments are generated Unicode strings (long, multi-byte, quotes, control characters) must be recorded and appear in the failing verification; std build only (the documented no_std behaviour is not run)"),
  "C09": dict(engine="lifecycle state machine in a crash-isolated worker (harness/rt)", cat="exploration", ref="§4 C09",
    technique="stateful property-based testing: generated lifecycle event sequences vs a lifecycle state-machine model, executed in a crash-isolated worker process, sequence shrinking",
    text="Sequences of up to 16 lifecycle events (clone of original/clone, drop, call, drop or call on another thread, verify(), report(), no_verify_in_drop(), delegated call creating the helper clone, make_ref holding a clone, caught mock-induced panic) over up to 6 instances; each step's outcome (silent, panic class, exit code) is compared with the model, which also counts that the original verifies at most once. A double panic aborts only the worker and is attributed to its sequence.",
@@ -56,15 +56,15 @@ CHECKS = {
  "C12": dict(engine="E1 conservation check + E3 scheduler (harness/rt)", cat="exploration", ref="§4 C12",
    technique="property-based testing with an instrumented (drop- and clone-counting) value type: conservation oracle over generated request histories; exhaustive schedule enumeration for threads racing for one single-use value",
    text="Generated histories request 1-6 configured values (non-Clone tokens alone, in Option/Poll, as owned leaves of mixed tuples, as owned Err of Result<&T,E>, and two or three levels down in Option<Result<&T,E>>, Poll<Result<..>>, Poll<Option<Result<..>>>, Vec<Result<&T,E>>, (Option<Result<&T,E>>,&T); Clone tokens via single-use path, n_times, each_call) 0-4 times each through original and clones: the first request must deliver exactly the configured leaves, later ones must panic, stored values must stay undropped while the mock lives, repeat-use deliveries must be clones of the stored original, and after teardown every value ever constructed must have been dropped exactly once. All schedules of 2-3 threads competing for one single-use value are enumerated.",
-   note="the compile-time half (chains that must not type-check) is decided by the program-generation engine when present in the evidence (sub-check compile-fail); interleavings inside std::sync::Mutex are trusted"),
+   note="racing-leaves: all schedules of two threads (sampled for 2-4) requesting one single-use value whose owned leaves sit in several cells; the compile-time half (chains that must not type-check) is decided by the program-generation engine when present in the evidence (sub-check compile-fail); interleavings inside std::sync::Mutex are trusted"),
  "C13": dict(engine="value-chain shadow model in a crash-isolated worker (harness/rt)", cat="exploration", ref="§4 C13",
    technique="stateful property-based testing: generated lending sequences with a shadow list of (address, id, contents) and a drop registry; long-chain and multi-thread cases; crash-isolated worker with a small stack to expose recursive drops",
-   text="Phases of lending operations (make_ref of several types, answers using make_ref, returns()-configured borrows, borrows through the delegation helper, bursts) over original and clones, closed by make_mut / a make_mut-answered &mut return / a provided &mut self method that lends nothing (nothing may be released) / a provided &mut self method whose body lends through the helper, then 2-8 threads lending through a shared &Unimock, then teardown: every reference held is re-read after every operation, addresses of make_ref values are pairwise distinct, nothing is dropped early, everything is dropped exactly once. Chains of 5k-51k values are dropped on a 256 KiB stack.",
+   text="Phases of lending operations (make_ref of several types, answers using make_ref, returns()-configured borrows, borrows through the delegation helper, bursts, lent values owning a clone of their instance) over original and clones, closed by make_mut / a make_mut-answered &mut return / a provided &mut self method that lends nothing (nothing may be released) / a provided &mut self method whose body lends through the helper, then 2-8 threads lending through a shared &Unimock, then teardown: every reference held is re-read after every operation, addresses of make_ref values are pairwise distinct, nothing is dropped early, everything is dropped exactly once. Chains of 5k-51k values are dropped on a 256 KiB stack.",
    note="references are held in safe Rust; concurrent interleavings inside once_cell are real-thread stress only (not scheduled)"),
 
  "C05": dict(engine="E2 program generation (harness/progen)", cat="exploration", ref="§4 C05",
    technique="grammar-based program generation (proptest strategy over trait ASTs) -> generated crate -> observations vs generator-side expectation, manual shrinking across the compile boundary",
-   text="Hundreds (quick) to ~16k (thorough) generated #[unimock] traits (7 receiver kinds x 0-5 parameters of 15 kinds with adjacent parameters often sharing a type x 6 return kinds x sync/async fn/impl Future/#[async_trait] x module/flattened/hidden api x method position, a twin method of identical signature next to it) are compiled against /repo and executed: a logging matcher and a logging, mutating, injective answer function must have seen exactly the caller's arguments in declaration order, the result and the caller's &mut variables must be what the answer produced, futures must not evaluate before / without a poll.",
+   text="Hundreds (quick) to ~16k (thorough) generated #[unimock] traits (7 receiver kinds x 0-5 parameters of 15 kinds with adjacent parameters often sharing a type x 6 return kinds x sync/async fn/impl Future/#[async_trait] x module/flattened/hidden api x method position, a twin method of identical signature next to it) are compiled against /repo and executed: the answer / real function also logs a receiver-identity probe (address equality, Rc/Arc strong_count, verify() for by-value self); a logging matcher and a logging, mutating, injective answer function must have seen exactly the caller's arguments in declaration order, the result and the caller's &mut variables must be what the answer produced, futures must not evaluate before / without a poll.",
    note="shapes rustc rejects are outside the property's domain (counted in evidence; > 5% rejected = exit 2); generated values' Debug strings are the channel of observation"),
  "C06": dict(engine="E2 program generation (harness/progen)", cat="exploration", ref="§4 C06",
    technique="grammar-based generation of matching! patterns, exhaustive evaluation over a finite argument domain, oracle = own pattern interpreter cross-checked by a native Rust match in the generated program",
@@ -72,11 +72,11 @@ CHECKS = {
    note="type-directed grammar: only patterns the macro accepts for the argument type are generated (rejections counted); rustc's match semantics trusted for the interpreter cross-check"),
  "C15": dict(engine="E2 program generation (harness/progen)", cat="exploration", ref="§4 C15",
    technique="grammar-based generation of default bodies (expression grammar) and mixed direct/delegated histories; oracle = generator-side inlining of the body",
-   text="Generated traits whose provided method calls 0-3 required methods with argument-derived values, for 8 receiver situations (&self, &mut self, self, Rc/Arc shared and sole owner, Pin<&mut Self>), required methods unordered with exact counts or as one ordered sequence, histories mixing direct and delegated calls, applies_default_impl() clauses: the arguments seen by the required patterns, every result and the final verification must equal what inlining the body predicts.",
+   text="Generated traits whose provided method calls 0-3 required methods with argument-derived values, for 8 receiver situations (&self, &mut self, self, Rc/Arc shared and sole owner, Pin<&mut Self>), required methods unordered with exact counts or as one ordered sequence, histories mixing direct and delegated calls, applies_default_impl() clauses, strict and partial mocks: the arguments seen by the required patterns, every result and the final verification must equal what inlining the body predicts.",
    note="clause lists of run-time length use the DynClause hook; rejected shapes counted"),
  "C16": dict(engine="E2 program generation (harness/progen)", cat="exploration", ref="§4 C16",
    technique="grammar-based generation of unmock_with registrations (path / path(permuted params) / _) per method position, recording real functions, recursion through the mock",
-   text="Generated traits of 1-4 required or provided (default body) methods with individual registrations, &self/&mut self, sync/async/impl Future, resolved to the real implementation through partial fall-through (unmentioned / unmatched) or applies_unmocked(): exactly one invocation of the right function with self and the arguments in registered order, result returned unchanged, panic naming Trait::method when nothing is registered; recursive real functions (depth 0-6) call back into the same mock whose counted base-case pattern must verify.",
+   text="Generated traits of 1-4 required or provided (default body) methods with individual registrations, &self/&mut self, sync/async/impl Future, optionally after a caught mock-induced panic on the same mock, resolved to the real implementation through partial fall-through (unmentioned / unmatched) or applies_unmocked(): exactly one invocation of the right function with self and the arguments in registered order, result returned unchanged, panic naming Trait::method when nothing is registered; recursive real functions (depth 0-6) call back into the same mock whose counted base-case pattern must verify.",
    note="rejected shapes counted"),
  "C17": dict(engine="E2 program generation (harness/progen)", cat="exploration", ref="§4 C17",
    technique="grammar-based generation of return types and values, round-trip oracle (Debug rendering computed independently by the generator)",
@@ -85,14 +85,14 @@ CHECKS = {
  "C19": dict(engine="E2 program generation (harness/progen)", cat="exploration", ref="§4 C19",
    technique="grammar-based generation of method shapes x patterns x failing tuples; message-grammar oracle built from generator-known Debug strings, printed line numbers and the C06 interpreter",
    text="For each generated pattern and shape (incl. non-Debug, reference-depth, &mut and generic parameters) every mock-induced error kind is triggered on a fresh mock (the pattern-naming unordered kinds also by the second pattern of the method, behind a decoy pattern on another line); the message must render the call as Trait::method(args) from the generator's own Debug strings ('?' for non-Debug), name the pattern by location (file and the line the generator printed) and source text, and for guard-free single-alternative patterns list exactly the positions the interpreter rejects, each with the actual value.",
-   note="only the parts named by the property are compared; ANSI codes stripped; pattern text compared in the documented short rendering with a literal-atoms fallback"),
+   note="sub-check text-arguments (hosted by harness/rt, no compilation): calls with generated Unicode string arguments must be rendered as Trait::method(<Debug of the arguments>) for every error kind; wrong-order errors are also raised while the pattern in line is partly consumed; only the parts named by the property are compared; ANSI codes stripped; pattern text compared in the documented short rendering with a literal-atoms fallback"),
 
  "C14": dict(engine="E1 tuple trees (harness/rt) + E2 compile-fail (harness/progen)", cat="exploration", ref="§4 C14",
    technique="exhaustive arity sweep + property-based random tuple trees over distinct ordered leaves (acceptance order reveals flattening order); generated offending clauses at generated positions; exhaustive enumeration of a builder-chain grammar judged by rustc against a type-level model",
    text="Every tuple arity 0, 2..16 (flat, and nested between further leaves) is built as a REAL tuple whose leaves are distinct ordered clauses: the in-order history must be accepted leaf by leaf and verify silently, every adjacent transposition must be refused; random trees up to depth 4 / 40 leaves repeat this. Consistent generated setups get one offending clause (opposite mode for a mentioned method, or an empty stub) injected at a generated position: construction itself must panic. All chains of a builder grammar (entry x response x quantifier x then) are type-checked by cargo check, one bin per chain: legal ones must compile, illegal ones must be rejected for the expected reason (E0271 naming InAnyOrder / Exact, E0599 for then() on an unquantified builder).",
    note="sub-trees are wrapped in the DynClause hook, nodes are production tuple impls; the 'return cannot be produced in the current feature set' case needs a no-mutex build and is only exercised by the thorough nostd variant when present"),
  "C20": dict(engine="E1 differential (harness/rt)", cat="exploration", ref="§4 C20",
-   technique="differential property-based testing: generated scripts replayed by the mocked required methods vs a hand-written struct implementing the upstream trait with the same script, driven through upstream provided methods; enumerated wiring sweep",
+   technique="differential property-based testing: generated scripts replayed by the mocked required methods vs a hand-written struct implementing the upstream trait with the same script, driven through upstream provided methods; wiring sweep enumerating every method of every mirrored trait (required, and provided mocked directly) on strict and partial mocks",
    text="On strict and on partial mocks: scripts of chunk sizes, short transfers, Interrupted/other errors and payloads are replayed through write_all, write_fmt, write_vectored, read_exact, read_to_end, read_to_string, read_vectored, read_line, read_until, rewind, stream_position, Hasher::write_u8..isize, format! with width/fill, DelayNs::delay_us/ms (incl. the overflow-splitting range), OutputPin::set_state, StatefulOutputPin::toggle, I2c read/write/write_read, SpiDevice read/write/transfer/transfer_in_place, SetDutyCycle provided methods: results, buffers and the sequence of required-method calls must equal those of the plain struct. 33 wiring probes configure one entry point at a time (embedded-hal neighbours of equal signature, SpiBus, std io provided methods mocked directly, Debug/Display, Error::source, tokio and futures-io poll_* methods and vectored defaults).",
    note="upstream provided methods are the reference on both sides; embedded-hal error paths are not scripted"),
 }
